@@ -3122,13 +3122,14 @@ func (dsc *dataStoreCommand) sort(sourceKeyName, byPattern, destKeyName string, 
 		}
 	} else {
 		sk, objExists := dsc.getKeyObjectUnlocked(sourceKeyName)
-		if !objExists {
-			output = nativeValueToResp([]any{})
-			return
+		var ss *redisDict
+		if objExists {
+			ss = sk.getSet()
 		}
-
-		ss := sk.getSet()
-		if ss != nil {
+		if !objExists {
+			// a missing key sorts like an empty list (with STORE: the destination is removed, 0)
+			vals = []sortVal{}
+		} else if ss != nil {
 			// convert set (a hash table) into a value array
 			vals = make([]sortVal, 0, ss.count)
 			for i := ss.createIterator(); i.next(); {
